@@ -7,7 +7,9 @@
                                       (file = AHED, entry chunks, [ANXT,] AEND); ERR InvalidInput;
                                       PANIC; TIMEOUT (fuel exhausted).  The third argument (password
                                       of generated archives, for the harness's decode oracle) is ignored.
-     merge  chunks                ->  OK chunks            (the oracle's normal form) *)
+     merge  chunks                ->  OK chunks            (the oracle's normal form)
+     read_parts file;file;...     ->  OK e;e;...           raw entries found by the reader chain over the
+                                      part files (each file a chunk list starting with AHED); ERR kind *)
 From PNA Require Import Base CodecRun Split.
 Open Scope N_scope.
 
@@ -53,6 +55,11 @@ Definition run_split (op : bytes) (args : list bytes) : bytes :=
       | Fin r => show_res show_files r
       | OutOfFuel => lit "TIMEOUT"
       end
+    | None => bad_case
+    end
+  else if bytes_eqb op (lit "read_parts") then
+    match parse_entries (nth 0%nat args []) with
+    | Some fs => show_res show_files (read_parts fs)
     | None => bad_case
     end
   else if bytes_eqb op (lit "merge") then
